@@ -1,6 +1,6 @@
 # C03 — label references resolve to the bound position
 # loop ids of the two fixup-list walks (if the code changes shape the global bound applies again: slower, never unsound)
-UW_BIND = '_ZN6asmjit5v1_2110CodeHolder10bind_labelERKNS0_5LabelEjm.2:5'
+UW_BIND = ','.join('_ZN6asmjit5v1_2110CodeHolder10bind_labelERKNS0_5LabelEjm.%d:5' % i for i in range(8))   # every back edge of the one do-while in bind_label
 UW_EXPR = '_ZN6asmjit5v1_21L30CodeHolder_evaluate_expressionEPNS0_10CodeHolderEPNS0_10ExpressionEPm:3'   # recursion depth of the expression evaluator
 UW_EMB = UW_BIND + ',' + UW_EXPR
 FS = ['--max-field-sensitivity-array-size', '128']
